@@ -196,6 +196,35 @@ def run(ctx):
     ms = summarize(prog, m)
     mp = m.params
     merged = False
+    variadic = None
+    if len(mp) < 2:
+        # merge(*others): the body is a loop over the responses handed over, judged per iteration at syntax level (in-order update of this
+        # response's table with each other's; the forms are update(), |=, and {**mine, **theirs})
+        va = m.node.args.vararg
+        loop_ = next((st for st in m.node.body if isinstance(st, ast.For) and isinstance(st.iter, ast.Name) and va is not None and st.iter.id == va.arg
+                      and isinstance(st.target, ast.Name)), None)
+        if loop_ is None:
+            raise AnalysisError(f"{MERGE}: no second parameter and no loop over a variadic one: the merge is not recognised")
+        on_, self_n = loop_.target.id, mp[0]
+
+        def is_caps(e, who):
+            return isinstance(e, ast.Attribute) and e.attr == "_capabilities" and isinstance(e.value, ast.Name) and e.value.id == who
+        verdicts = []
+        for st in ast.walk(loop_):
+            if isinstance(st, ast.Call) and isinstance(st.func, ast.Attribute) and st.func.attr == "update" and is_caps(st.func.value, self_n):
+                verdicts.append(len(st.args) == 1 and is_caps(st.args[0], on_))
+            elif isinstance(st, ast.AugAssign) and is_caps(st.target, self_n):
+                verdicts.append(isinstance(st.op, ast.BitOr) and is_caps(st.value, on_))
+            elif isinstance(st, ast.Assign) and any(is_caps(t_, self_n) for t_ in st.targets):
+                v_ = st.value
+                if isinstance(v_, ast.Dict) and all(k_ is None for k_ in v_.keys) and len(v_.values) == 2:
+                    verdicts.append(is_caps(v_.values[0], self_n) and is_caps(v_.values[1], on_))
+                elif isinstance(v_, ast.BinOp) and isinstance(v_.op, ast.BitOr):
+                    verdicts.append(is_caps(v_.left, self_n) and is_caps(v_.right, on_))
+                else:
+                    verdicts.append(False)
+        variadic = bool(verdicts) and all(verdicts) and not any(isinstance(n_, (ast.Break, ast.Continue, ast.Return)) for n_ in ast.walk(loop_))
+        mp = [mp[0], on_]
     other_caps = ("attr", ("param", mp[1]), "_capabilities")
 
     def certainly_empty(path):
@@ -245,7 +274,7 @@ def run(ctx):
                         and e is not None and e[0] == "store" and e[1] == v and strip(e[2]) == ("item", ("iter", ms.ta.terms_at[loop.iter]), 0) \
                         and strip(e[3]) == ("item", ("iter", ms.ta.terms_at[loop.iter]), 1):
                     merged = True
-    merged = merged and skipped_only_when_empty
+    merged = (merged and skipped_only_when_empty) if variadic is None else variadic
     ctx.ob("C15.d", MERGE, merged, "merge(other) is self._capabilities.update(other._capabilities) (later records override earlier ones)",
            func=MERGE, file=m.module.rel, construct="self._capabilities.update(other._capabilities)",
            fail="merge() is not an in-order dict.update of the other response's capabilities into this one")
@@ -262,6 +291,12 @@ def run(ctx):
            file=g.module.rel, construct="merge / _update_capabilities calls",
            fail="get_capabilities no longer merges the additional response or no longer updates the device capabilities")
     first = None
+    loops_ = [l_ for l_ in ast.walk(g.node) if isinstance(l_, (ast.While, ast.For, ast.AsyncFor))]
+    if any(n is x for n, _t in merge_calls for l_ in loops_ for x in ast.walk(l_)):
+        # the pages are followed in a loop (more than one additional page): which response receives which is not decided by the two-page rule
+        ctx.deferred_errors.append(f"{GETCAPS}: the additional pages are merged inside a loop: merge direction / order over several pages is not decided")
+        ctx.count("paging", len(merge_calls) + len(upd_calls))
+        merge_calls, upd_calls = [], []
     for n, t in merge_calls:
         ctx.count("paging")
         recv_t, arg_t = strip(t[0]), strip(t[1])
